@@ -48,6 +48,20 @@ func foreignLayout(r *Run, real bool) {
 		files = append(files, ref.Protected{Name: name, Data: expandContent(ckRandom, t.Draw64(0, "cseed"), size, S)})
 		n += (size + S - 1) / S
 	}
+	if nf >= 2 && t.Bool(1, 30, "file-id-twins") {
+		// two files whose file ids agree in their most significant 32 bits
+		// (birthday search over names): the main packet lists ids in
+		// numeric order, so near-ties are where a reader's comparison of
+		// ids is put to the test
+		data := files[0].Data
+		if a, b, ok := fileIDTwins(data, 1<<18); ok {
+			n -= (len(files[1].Data) + S - 1) / S
+			files[0].Name, files[1].Name = a, b
+			files[1].Data = data
+			n += (len(data) + S - 1) / S
+			r.Probe("file-id-twins")
+		}
+	}
 	// ---- exponents ----
 	var exps []int
 	ne := 1 + t.Draw(6, "nexps")
